@@ -87,6 +87,7 @@ def run_children(hashseed, jobs, k=0):
 class Recorder(tape.Tape):
     """lets the REAL random module decide and records each outcome as the tape entry that
     decodes to it (PyRandom.v), so the model can replay the run"""
+    script_foreign = False          # every other primitive stays the real one
 
     def __init__(self, saved):
         super().__init__(())
@@ -195,6 +196,19 @@ def run(ctx):
     for k, hs in enumerate(hashseeds):
         outs[hs] = run_children(hs, jobs, k)
         dist["process_runs"] += 1
+    # (a') calls made deep in the caller's stack, in a fresh interpreter: RecursionError or the shallow call's value
+    deep_sources = ["nest:%d" % k for k in (3, 40, 90, 130, 170, 200)] + [
+        "schema.list(schema.list(schema.list(schema.int).len(2)).len(2)).len(2)", "schema.dict({'a': schema.list(schema.str.len(3)).len(4), 'b': schema.str.regex('(a|b){3}x+')})"]
+    deep_job = {"seed": "42", "schemas": deep_sources, "depths": [200, 450, 600, 700, 800, 900]}
+    for row, src in zip(run_children(hashseeds[0], [deep_job], 0)[0], deep_sources):
+        dist["deep_stack_calls"] = dist.get("deep_stack_calls", 0) + len(row)
+        ref = row[0]
+        bad = [x for x in row[1:] if x != ref and x != "raise:RecursionError"]
+        if ref.startswith("raise:") or bad:
+            ctx.violation("a seeded generation called deep in the caller's stack returns other values than the same call made shallow",
+                          {"kind": "history", "seed": "42", "schema": src[:300], "stack_depths": [0] + deep_job["depths"] + [0],
+                           "observed": [x[:80] for x in row], "expected": "the shallow value, or RecursionError"})
+            break
     for q, (seed, sources, schemas, negated) in enumerate(meta):
         dist["negated_class"] += int(negated)
         for hs in hashseeds:
